@@ -1,4 +1,5 @@
 import FlowCalModel.Density
+import FlowCalModel.Generated
 /-!
 # C05 — The density gate keeps the densest whole bins holding the requested share
 -/
@@ -118,5 +119,8 @@ example : acceptCount [5, 3, 3, 0, 1] 6 = 2 ∧ acceptCount [5, 3, 3, 0, 1] 5 = 
 example : validGate [5, 3, 3, 0, 1] [9, 7, 7, 2, 1] [true, true, false, false, false] 6 = (true, true, true) := by decide
 example : validGate [5, 3, 3, 0, 1] [9, 7, 7, 2, 1] [true, false, true, false, false] 6 = (true, true, true) := by decide   -- tie at the cut: either is valid
 example : validGate [5, 3, 3, 0, 1] [9, 7, 7, 2, 1] [true, true, true, false, false] 6 = (true, false, true) := by decide
+
+/-- the bin-selection statements of `gate.density2d` in the source now (regenerated on every run) are the ones the model stands for -/
+theorem selection_statements_match_source : Generated.densitySelection = FlowCal.Density.sourceSpec := rfl
 
 end FlowCal.C05
